@@ -94,6 +94,11 @@ var kinds = []kind{
 	{"syncmap-get-badkey", "SM[BAD]", false, true, false},
 	{"syncmap-set-badkey", "smset()", false, true, false},
 	{"syncmap-iterate-bad", "smiter()", false, true, false},
+	// the container itself as (part of) the key: turning the key into text takes the container's lock again
+	{"syncmap-set-selfkey", "smself(1)", false, false, false},
+	{"syncmap-delete-selfkey", "smself(2)", false, false, false},
+	{"syncmap-get-selfkey", "smself(3)", false, false, false},
+	{"syncmap-set-nested-selfkey", "smself(4)", false, false, false},
 	{"recursion-unbounded", "rec()", false, false, true},
 	{"recursion-200-locals", "fat(1)", false, false, true},
 	// the frame limit is reached before the value-stack limit (<= 2 slots per activation) and the overflow error is
@@ -109,7 +114,7 @@ func prelude() string {
 		fmt.Fprintf(&fat, "v%d := a; ", i)
 	}
 	fat.WriteString("return fat(v0) + v199 }; ")
-	return "global (L, PANIC, PANICAFTER, BAD, CB, SM); smset := func() { SM[BAD] = 1; return 1 }; smiter := func() { for k, v in SM { x := BAD.x }; return 1 }; zero := 0; neg := -1; five := 5; o := 1; two := func(a, b) { return a }; thrower := func() { throw \"t\" }; " +
+	return "global (L, PANIC, PANICAFTER, BAD, CB, SM); smset := func() { SM[BAD] = 1; return 1 }; smiter := func() { for k, v in SM { x := BAD.x }; return 1 }; smself := func(w) { if w == 1 { kk := string(SM); SM[SM] = 1; delete(SM, kk) } else if w == 2 { delete(SM, SM) } else if w == 3 { return SM[SM] } else { kk := string([SM, {k: SM}]); SM[[SM, {k: SM}]] = 1; delete(SM, kk) }; return 1 }; zero := 0; neg := -1; five := 5; o := 1; two := func(a, b) { return a }; thrower := func() { throw \"t\" }; " +
 		"iterBad := func() { for v in BAD { return v }; return 0 }; var rec; rec = func() { return rec() + 1 }; var rcatch; rcatch = func() { try { return rcatch() + 1 } catch { return 0 } }; var rfin; rfin = func() { try { return rfin() + 1 } finally { zero = 0 } }; " + fat.String()
 }
 
